@@ -252,6 +252,9 @@ pub enum GFilter {
     Targets(Tab),
     Env(Tab),
     StaticFn { levels: u8, targets: u8 },
+    /// `dynamic_filter_fn(|m, _| level in mask)` used as a layer: decides like StaticFn, but its
+    /// callsite interest is `sometimes` (and it publishes no max-level hint)
+    DynFn { levels: u8 },
 }
 impl GFilter {
     pub fn as_fexpr(&self) -> FExpr {
@@ -260,6 +263,7 @@ impl GFilter {
             GFilter::Targets(t) => FExpr::Targets(t.clone()),
             GFilter::Env(t) => FExpr::Env(t.clone()),
             GFilter::StaticFn { levels, targets } => FExpr::StaticFn { levels: *levels, targets: *targets },
+            GFilter::DynFn { levels } => FExpr::StaticFn { levels: *levels, targets: 0xff },
         }
     }
     pub fn accepts(&self, level: u8, target: &str) -> bool {
@@ -277,6 +281,10 @@ impl GFilter {
                     l >> (vp_rec::rank(m.level()) - 1) & 1 == 1 && t >> ti & 1 == 1
                 }))
             }
+            GFilter::DynFn { levels } => {
+                let l = *levels;
+                Box::new(dynamic_filter_fn(move |m: &Metadata<'_>, _cx: &Context<'_, Registry>| l >> (vp_rec::rank(m.level()) - 1) & 1 == 1))
+            }
         }
     }
 }
@@ -286,6 +294,7 @@ pub fn gfilter_strategy() -> BoxedStrategy<GFilter> {
         2 => tab_strategy().prop_map(GFilter::Targets),
         2 => tab_strategy().prop_map(GFilter::Env),
         1 => (0u8..32, 0u8..8).prop_map(|(levels, targets)| GFilter::StaticFn { levels, targets }),
+        2 => (0u8..32).prop_map(|levels| GFilter::DynFn { levels }),
     ]
     .boxed()
 }
